@@ -449,3 +449,49 @@ Proof.
     split; [now apply gfr_same |]. intros w Hw. constructor; unfold waiting, waiters_at, rdy; rs; try reflexivity.
     apply (wsel_filter_other w id (fun rq => str_eqb (dr_filter rq) f)). exact Hw.
 Qed.
+
+(* ------------------------------------------------------------------ handle_disconnection *)
+Lemma dl_clean_other w id dl dl' q : id <> w -> dl_clean dl id = (dl', q) ->
+  (forall idx, Permutation (items_waiting w (sl_items (dl_native dl')) idx) (items_waiting w (sl_items (dl_native dl)) idx)) /\
+  sl_free (dl_native dl') = sl_free (dl_native dl).
+Proof.
+  intros Hne H. unfold dl_clean in H. destruct (clean_items (sl_items (dl_native dl)) id) as [items q'] eqn:E.
+  inversion H; subst; clear H. cbn [set_dl_native dl_native sl_items sl_free]. split; [| reflexivity].
+  eapply clean_items_other; eauto.
+Qed.
+
+Lemma handle_disconnection_iso st id reason st' :
+  handle_disconnection st id reason = Ok st' ->
+  (forall w, w <> id -> isoq w st st') /\ (NF st -> NF st') /\
+  (st' = st \/ exists o0, slab_get (r_obufs st) id = Some o0 /\
+                          r_cmap st' = al_remove str_eqb (o_client o0) (r_cmap st)).
+Proof.
+  intros H. destruct (slab_get (r_obufs st) id) as [o0 |] eqn:G.
+  2:{ rewrite (handle_disconnection_noop _ _ _ G) in H. inv_ok.
+      split; [intros; apply isoq_refl | split; [auto | now left]]. }
+  destruct (handle_disconnection_frame _ _ _ _ _ H G) as (F1 & F2 & F3 & F4 & F5 & _).
+  unfold handle_disconnection in H. rewrite G in H.
+  apply bind_ok in H as (st0 & H0 & H).
+  assert (F0 : st0 = set_r_links st (r_links st0)).
+  { destruct reason as [rc |].
+    - apply bind_ok in H0 as ([s l] & H0 & H1). inv_ok. eapply push_out_fields; eauto.
+    - inv_ok. now destruct st0. }
+  assert (EQ : r_notif st' = r_notif st /\ r_ready st' = r_ready st /\
+               r_cmap st' = al_remove str_eqb (o_client o0) (r_cmap st) /\
+               exists q, dl_clean (r_datalog st) id = (r_datalog st', q)).
+  { rewrite F0 in H. clear F0 H0. rs.
+    destruct (dl_clean (r_datalog st) id) as [dl q] eqn:Ec.
+    break_all H; inv_ok; rs; (split; [reflexivity | split; [reflexivity | split; [reflexivity | eauto]]]). }
+  destruct EQ as (E1 & E2 & E3 & q & E4).
+  split; [| split; [| right; eauto]].
+  - intros w Hw. constructor.
+    + rewrite F3. replace (w =? id) with false by lia. reflexivity.
+    + rewrite F5. replace (w =? id) with false by lia. reflexivity.
+    + rewrite F1. replace (w =? id) with false by lia. reflexivity.
+    + rewrite F2. replace (w =? id) with false by lia. reflexivity.
+    + rewrite F4. replace (w =? id) with false by lia. reflexivity.
+    + now rewrite E1.
+    + intros idx. rewrite !waiting_items. eapply dl_clean_other; [| exact E4]. congruence.
+    + unfold rdy. now rewrite E2.
+  - unfold NF. intros Hnf. destruct (dl_clean_other id id _ _ _ eq_refl E4) as [_ Hf]. congruence.
+Qed.
